@@ -85,3 +85,53 @@ theorem resolve_terminal {rw : Rewrite} (h : Terminates rw) (w : Nat) : Terminal
   simp [resolve, ht]; exact htt
 
 end P3R
+
+namespace P3R
+
+theorem resolveFuel_terminal {rw : Rewrite} {t : Nat} (h : Terminal rw t) (n : Nat) :
+    resolveFuel rw (n + 1) t = some t := by
+  unfold Terminal at h
+  simp [resolveFuel, h]
+
+theorem resolve_of_terminal {rw : Rewrite} {t : Nat} (h : Terminal rw t) : resolve rw t = t := by
+  simp [resolve, resolveFuel_terminal h]
+
+theorem resolve_idem {rw : Rewrite} (h : Terminates rw) (x : Nat) :
+    resolve rw (resolve rw x) = resolve rw x :=
+  resolve_of_terminal (resolve_terminal h x)
+
+/-- Resolution in a map extended by `out ↦ root` (both terminal before, distinct). -/
+theorem resolve_cons_eq {rw : Rewrite} {out root : Nat} (h : Terminates rw)
+    (hout : Terminal rw out) (hroot : Terminal rw root) (hne : out ≠ root) (x : Nat) :
+    resolve ((out, root) :: rw) x = if resolve rw x = out then root else resolve rw x := by
+  obtain ⟨t, ht, _⟩ := h x
+  have h1 := resolveFuel_cons hout hroot hne _ x t ht
+  have hr : resolve rw x = t := by simp [resolve, ht]
+  simp only [resolve, List.length_cons, h1, Option.getD_some, ht]
+
+/-- `rw'` is obtained from `rw` by the insertions de-duplication performs. -/
+inductive Ext : Rewrite → Rewrite → Prop where
+  | refl (rw : Rewrite) : Ext rw rw
+  | step {rw rw₁ : Rewrite} {out root : Nat} : Ext rw rw₁ → Terminal rw₁ out → Terminal rw₁ root →
+      out ≠ root → Ext rw ((out, root) :: rw₁)
+
+theorem Ext.trans {a b c : Rewrite} (h₁ : Ext a b) (h₂ : Ext b c) : Ext a c := by
+  induction h₂ with
+  | refl => exact h₁
+  | step _ ho hr hne ih => exact Ext.step ih ho hr hne
+
+theorem Ext.terminates {a b : Rewrite} (h : Ext a b) (ha : Terminates a) : Terminates b := by
+  induction h with
+  | refl => exact ha
+  | step _ ho hr hne ih => exact terminates_cons ih ho hr hne
+
+/-- Resolving first in an earlier map changes nothing for a later one. -/
+theorem Ext.resolve_comp {a b : Rewrite} (h : Ext a b) (ha : Terminates a) (x : Nat) :
+    resolve b (resolve a x) = resolve b x := by
+  induction h with
+  | refl => exact resolve_idem ha x
+  | step h₁ ho hr hne ih =>
+    have hb := h₁.terminates ha
+    rw [resolve_cons_eq hb ho hr hne, resolve_cons_eq hb ho hr hne, ih]
+
+end P3R
